@@ -25,6 +25,13 @@ def obligations(tier):
                 n = 2 if tier == "quick" else 3
                 obs.append(Ob(f"{tf}/zone={zone}/fill={fill}/n={n}", dict(tf=tf, n=n, zone=zone, fill=fill), CFG, weight=10,
                               budget_s=600 if tier == "quick" else 7200, max_paths=300000))
+    # a rolling lifespan on top of the collapse (the window is measured on the candles' own clock)
+    for tf in ("T5", "H1") if tier == "quick" else ("T5", "T45", "H1", "D1"):
+        for zone in ("fixed", "dst"):
+            for life in (1, 2):
+                n = 3
+                obs.append(Ob(f"{tf}/zone={zone}/lifespan={life}buckets/n={n}", dict(tf=tf, n=n, zone=zone, fill=False, life=life), CFG, weight=15,
+                              budget_s=600 if tier == "quick" else 7200, max_paths=300000))
     # timestamps handed over as ISO-8601 strings (Candle(...), from_dict, from_dicts): concrete wall-clock values
     # (ordinary ones, and ones around both DST transitions of the rule zone), the zone stays symbolic
     for zone in ("fixed", "dst"):
@@ -101,11 +108,16 @@ def run(ctx, P):
         lo, hi = 86400 * 3, 4 * 10 ** 9
     else:
         lo, hi = Y2024
-    span = 5 * tfs if fill else None
+    life = P.get("life")
+    span = 5 * tfs if (fill or life) else None
     cs, ts = mk_candles_symtime(ctx, n, lo=lo, hi=hi, span=span)
     ref = ref_resample(ctx, cs, ts, tfs)
     if fill:
         ref = ref_fill(ctx, ref, tfs, 6)
+    if life:
+        # a rolling lifespan: what is retained is decided on the candles' own wall clock, not on the process zone's
+        newest = ref[-1]["ts"]
+        ref = [b for b in ref if bool(b["ts"] >= newest - life * tfs)]
     if ctx.symbolic:
         import z3
         from symx import symtime
@@ -113,7 +125,15 @@ def run(ctx, P):
         symtime.TZ_OFF[0] = zone
     try:
         for label, pre, chunks in (("construction", n, []), ("singles", 0, [1] * n)):
-            m = drive_manager(cs, tf, fill, pre, chunks)
+            if life:
+                from datetime import timedelta
+                _, _, _, CandleManager, _ = lib()
+                src = clone(cs)
+                m = CandleManager(src[:pre], candles_lifespan=timedelta(seconds=life * tfs), timeframe=tf, timeframe_fill=fill)
+                for c in src[pre:]:
+                    m.append(c)
+            else:
+                m = drive_manager(cs, tf, fill, pre, chunks)
             got = lib_view(ctx, m.candles)
             if label == "construction":
                 ctx.observe("collapsed", got)
